@@ -18,7 +18,7 @@ import (
 // Joint L1+L2 bridge world: ground truth (every leaf, root and proof) on the side, real stores fed block by block.
 // Used by C02, C03, C09, C10, C12, C13.
 
-const jNetID = uint32(1) // our L2 network (rollup id 1, rollup index 0)
+const jNetID = uint32(3) // our L2 network (rollup id 3, rollup index 2); the foreign rollups of the worlds are 1 and 2, so rollup index 0 is a foreign source
 
 type srcDep struct {
 	LeafType uint8
@@ -188,7 +188,7 @@ func (w *jWorld) addL1Block(ch choose.Chooser, nMain, nRoll, nInfo int) error {
 		w.mainDeps = append(w.mainDeps, w.genDep(ch, 0))
 	}
 	for i := 0; i < nRoll; i++ {
-		id := uint32(2 + ch.Int(0, 1, "foreignRollup"))
+		id := uint32(1 + ch.Int(0, 1, "foreignRollup"))
 		w.rollDeps[id] = append(w.rollDeps[id], w.genDep(ch, id))
 		// verify batches: the rollup manager records the rollup's new local exit root
 		w.rollVerif[id] = len(w.rollDeps[id])
